@@ -9,7 +9,7 @@ and then:
   1. demo on the clean worktree must PASS (exit 0); patch applied -> demo must FAIL (exit != 0)
   2. optionally (--suite) the 302-test baseline must still pass with the patch
   3. `check.py <property> --tier <tier>` with VERIF_REPO=<worktree> must exit 1 with a VIOLATION line
-The worktree is removed afterwards.  Results go to seeded/RESULTS.json (which check caught which change).
+The worktree is removed afterwards.  Results go to seeded/<id>/result.json (which check caught which change).
 This is development tooling of the lead: it is not one of the registered commands.
 """
 import argparse
@@ -66,8 +66,7 @@ def main():
     only = set(x for x in a.only.split(",") if x)
     props = set(x for x in a.props.split(",") if x)
     ready = [l.strip() for l in open(os.path.join(HERE, "ready.txt")) if l.strip() and not l.startswith("#")]
-    resp = os.path.join(VERIF, "seeded", "RESULTS.json")
-    results = json.load(open(resp)) if os.path.exists(resp) else {}
+    results = {}
     os.makedirs(SCRATCH, exist_ok=True)
     # a private copy of the committed /verif (plus the Lean build output) so that mutated Gen/*.lean, evidence and replays
     # never touch /verif while other work goes on there
@@ -134,7 +133,12 @@ def main():
             sh("git -C %s worktree remove --force %s" % (REPO, wt))
             shutil.rmtree(wt, ignore_errors=True)
             sh("git -C %s worktree prune" % REPO)
-        json.dump(results, open(resp, "w"), indent=1, sort_keys=True)
+        if sid in results:
+            rp = os.path.join(d, "result.json")
+            old = json.load(open(rp)) if os.path.exists(rp) else {}
+            if "suite_missing_from_baseline" in old and "suite_missing_from_baseline" not in results[sid]:
+                results[sid]["suite_missing_from_baseline"] = old["suite_missing_from_baseline"]
+            json.dump(results[sid], open(rp, "w"), indent=1, sort_keys=True)
     shutil.rmtree(vcopy, ignore_errors=True)
 
 
